@@ -954,6 +954,139 @@ func (ex *Exec) cutLoop(fr *Frame, st *State, li *loopInfo) {
 		ex.loopHdr = map[*loopInfo]*State{}
 	}
 	ex.loopHdr[li] = st.clone()
+	// the quantified invariants assumed here are available for explicit
+	// instantiation at later obligations
+	if lc := ex.loopContract(fr, li); lc != nil {
+		var parts []invConjE
+		ex.invLoopBlocks = li.blocks
+		for _, inv := range lc.Invariants {
+			for _, e := range flattenAnd(inv.Expr) {
+				parts = append(parts, ex.splitClauseE(fr, st, nil, Clause{Expr: e, Text: exprText(e)})...)
+			}
+		}
+		ex.invLoopBlocks = nil
+		hs := st.clone()
+		ex.hyps = append(ex.hyps, hypRecord{state: hs, parts: parts, loopBlocks: li.blocks})
+	}
+}
+
+type hypRecord struct {
+	state      *State
+	parts      []invConjE
+	loopBlocks map[*ssa.BasicBlock]bool
+}
+
+// skolemWithHyps skolemises a universally quantified goal and instantiates the
+// recorded quantified hypotheses (lock invariants assumed at Lock(), loop
+// invariants assumed at headers) at the skolem constants, their successors,
+// and their sums with the contract's hint terms. Every instance is a
+// consequence of a fact that was assumed in the recorded state.
+func (ex *Exec) skolemWithHyps(fr *Frame, st *State, part invConjE) (string, bool) {
+	cond, q := quantShape(part.expr)
+	if q == nil {
+		return "", false
+	}
+	c := part.ctx(st)
+	var sks []TVal
+	for _, qv := range q.Vars {
+		t := c.resolveType(qv.Type)
+		if !isSingleLeaf(t) {
+			return "", false
+		}
+		s := scalarSort(t)
+		tv := TVal{V: Sc{ex.vc.Fresh("sk_"+qv.Name, s), s}, T: t}
+		c.env[qv.Name] = tv
+		sks = append(sks, tv)
+	}
+	goal := c.boolTerm(q.Body)
+	if cond != nil {
+		goal = implies(c.boolTerm(cond), goal)
+	}
+	ex.instantiateHyps(fr, st, sks)
+	return goal, true
+}
+
+func (ex *Exec) instantiateHyps(fr *Frame, st *State, sks []TVal) {
+	// hint terms of the verified function, evaluated now
+	var hints []TVal
+	if top := ex.topFrame; top != nil && top.ct != nil {
+		for _, h := range top.ct.Hints {
+			func() {
+				defer func() { recover() }()
+				hc := ex.newCtx(top, st, top.entry, nil)
+				v := hc.coerce(hc.eval(h), types.Typ[types.Int])
+				hints = append(hints, v)
+			}()
+		}
+	}
+	var cands []TVal
+	for _, sk := range sks {
+		cands = append(cands, sk)
+		if isInteger(sk.T) {
+			s := sc(sk.V)
+			w := s.S.Width()
+			cands = append(cands, TVal{V: Sc{app("bvadd", s.T, bvInt(1, w)), s.S}, T: sk.T})
+			for _, h := range hints {
+				hs := sc(h.V)
+				if hs.S.Width() == w {
+					cands = append(cands, TVal{V: Sc{app("bvadd", s.T, hs.T), s.S}, T: sk.T})
+				}
+			}
+		}
+	}
+	for _, h := range hints {
+		cands = append(cands, h)
+	}
+	n := len(ex.hyps)
+	lo := n - 4
+	if lo < 0 {
+		lo = 0
+	}
+	for _, rec := range ex.hyps[lo:] {
+		saved := ex.invLoopBlocks
+		ex.invLoopBlocks = rec.loopBlocks
+		for _, hp := range rec.parts {
+			hcond, hq := quantShape(hp.expr)
+			if hq == nil || len(hq.Vars) > 2 {
+				continue
+			}
+			hc := hp.ctx(rec.state)
+			count := 0
+			var rcr func(k int)
+			rcr = func(k int) {
+				if count > 120 {
+					return
+				}
+				if k == len(hq.Vars) {
+					count++
+					t := func() (t string) {
+						defer func() {
+							if r := recover(); r != nil {
+								t = "true"
+							}
+						}()
+						b := hc.boolTerm(hq.Body)
+						if hcond != nil {
+							b = implies(hc.boolTerm(hcond), b)
+						}
+						return b
+					}()
+					ex.assume(st, t)
+					return
+				}
+				vt := hc.resolveType(hq.Vars[k].Type)
+				for _, cd := range cands {
+					if cd.T == nil || !types.Identical(vt.Underlying(), cd.T.Underlying()) {
+						continue
+					}
+					hc.env[hq.Vars[k].Name] = cd
+					rcr(k + 1)
+				}
+			}
+			rcr(0)
+		}
+		ex.invLoopBlocks = saved
+	}
 }
 
 // epochInfo: untouched components of an epoch resolve to the parent epoch's
